@@ -29,12 +29,15 @@ Open Scope N_scope.
 Definition kind_text (k : kind) : list N :=
   match k with KKw n => n | k => delim_text k end.
 
-(* the `match &token.value` of push_token.  `ext_escape = false` is the current code: an
-   identifier prints `Symbol::name_utf8()`, i.e. an extended identifier is printed WITHOUT
-   re-doubling its interior backslashes (open finding F-C12-c); `true` is the intended repair. *)
+(* the `match &token.value` of push_token.  An identifier prints `Symbol::name_utf8()`; when that
+   name starts and (after the first character) ends with a backslash it is an extended identifier
+   whose stored name is un-escaped: its interior backslashes are doubled again (commit 74eb856).
+   `ext_escape = false` is the code before that commit (finding F42: `\a\\b\` was printed `\a\b\`). *)
 Definition ext_ident_text (n : list N) : list N :=
   match n with
-  | c :: r => if c =? 92 then 92 :: escape 92 (removelast r) ++ [92] else n
+  | c :: r =>
+    if (c =? 92) && negb (match r with [] => true | _ => false end) && (last r 0 =? 92)
+    then 92 :: escape 92 (removelast r) ++ [92] else n
   | [] => n
   end.
 Definition tok_text_gen (ext_escape : bool) (t : token) : list char :=
@@ -48,7 +51,8 @@ Definition tok_text_gen (ext_escape : bool) (t : token) : list char :=
   | VText x => x
   | VNone => kind_text (t_kind t)
   end.
-Definition tok_text := tok_text_gen false.
+Definition tok_text := tok_text_gen true.
+Definition tok_text_old := tok_text_gen false.
 
 (* str::trim_end (char::is_whitespace) *)
 Definition trim_end (l : list char) : list char := rev (trim_start (rev l)).
@@ -112,9 +116,25 @@ Fixpoint fmt_leading (b : buffer) (cs : list comment) : option buffer :=
 Definition on_token_line (c : comment) (t : token) : bool :=
   c_multi c && (fst (c_s c) =? fst (c_e c)) && (fst (t_s t) =? fst (c_s c)).
 
-(* push_token *)
-Definition push_token (b : buffer) (t : token) : option buffer :=
+(* `self.inner.chars().next_back()`: the last character written so far *)
+Fixpoint last_char (rev_ps : list piece) : option char :=
+  match rev_ps with
+  | [] => None
+  | p :: r => match rev (piece_text p) with c :: _ => Some c | [] => last_char r end
+  end.
+(* comment_merges_with_previous_char (commit 9420374): `-` + `--`, `?` + `/*` *)
+Definition comment_merges (c : comment) (prev : char) : bool :=
+  if c_multi c then prev =? 63 else prev =? 45.
+
+(* push_token.  `sepfix = false` is the code before commit 9420374 (finding F40: a leading comment was
+   written directly behind the previous token: `-` `-- c` gave `--- c`). *)
+Definition push_token_gen (sepfix : bool) (b : buffer) (t : token) : option buffer :=
   let b0 := set_extra (if b_extra b then line_break b else b) false in
+  let b0 :=
+    match last_char (b_rev b0), t_lead t with
+    | Some prev, c :: _ => if sepfix && comment_merges c prev then push b0 [PBlank 32] else b0
+    | _, _ => b0
+    end in
   let lead :=
     match t_lead t with
     | [] => Some b0
@@ -130,6 +150,8 @@ Definition push_token (b : buffer) (t : token) : option buffer :=
           | None => b2
           end)
   end.
+Definition push_token := push_token_gen true.
+Definition push_token_old := push_token_gen false.
 
 (* ---------- traces: what a formatter run does to the buffer ---------- *)
 Inductive sop := SWs | SBreak | SBreaks (n : N) | SInc | SDec.     (* the non-token operations *)
@@ -152,7 +174,7 @@ Fixpoint run_ops (b : buffer) (l : list op) : option buffer :=
   | o :: r => match run_op b o with Some b' => run_ops b' r | None => None end
   end.
 Definition render_pieces (l : list op) : option (list piece) :=
-  match run_ops buf0 l with Some b => Some (rev (b_rev b)) | None => None end.
+  match run_ops buf0 l with Some b => Some (rev_append (b_rev b) []) | None => None end.   (* = rev (b_rev b), linear *)
 Definition render_ops (l : list op) : option (list char) :=
   match render_pieces l with Some ps => Some (pieces_text ps) | None => None end.
 
@@ -178,10 +200,12 @@ Fixpoint take_text (n : nat) (ps : list piece) : list char :=
 Definition lat (c : N) : bool := c <? 256.
 Definition nonl (c : N) : bool := negb (c =? 10) && negb (c =? 13).
 Definition is_idc (c : N) : bool := is_alnum c || (c =? 95).
-Definition nth_is (l : list char) (i : nat) (v : N) : bool :=
-  match nth_error l i with Some x => x =? v | None => false end.
-Definition nth_sat (l : list char) (i : nat) (f : N -> bool) : bool :=
-  match nth_error l i with Some x => f x | None => false end.
+Definition hd_is (r : list char) (v : N) : bool := match r with c :: _ => c =? v | [] => false end.
+Definition hd_sat (r : list char) (f : N -> bool) : bool := match r with c :: _ => f c | [] => false end.
+Definition hd_lat_b (r : list char) : bool := match r with c :: _ => c <? 256 | [] => true end.
+(* the second character, if any, is Latin-1 and not a tick *)
+Definition snd_not_tick (r : list char) : bool :=
+  match r with _ :: c2 :: _ => (c2 <? 256) && negb (c2 =? 39) | _ => true end.
 
 (* the base specifiers: b o x d ub uo ux sb so sx (any letter case) *)
 Definition is_bs_name (n : list N) : bool :=
@@ -191,38 +215,48 @@ Definition is_bs_name (n : list N) : bool :=
   | _ => false
   end.
 
-(* `follow_ok last t rest`: the tokenizer arm that reads the text of t, entered with `last` as the
-   previous token kind, stops exactly at the end of that text and yields t's kind and value when
-   the text is followed by `rest` (only the first two characters matter):
+(* `follow_kv last k v rest`: the tokenizer arm that reads the text of a token of kind k and value v,
+   entered with `last` as the previous token kind, stops exactly at the end of that text and yields
+   (k, v) when the text is followed by `rest` (only the first two characters matter):
      identifier / keyword / number followed by an identifier character; `x` `"..."` (bit string);
      `-` `-` and `/` `*` (comment), `<` `=`, `:` `=`, `=` `>`, `*` `*`, `?` + operator character,
-     tick vs character literal, string after string, integer followed by `.` `#` or a letter ... *)
-Definition follow_ok (last : option kind) (t : token) (rest : list char) : bool :=
-  let c1 v := nth_is rest 0 v in
-  (nth_sat rest 0 lat || match rest with [] => true | _ => false end) &&
-  match t_kind t, t_val t with
-  | KColon, VNone => negb (c1 61)
-  | KTick, VNone => negb (can_be_char last) || negb (nth_is rest 1 39)
-  | KMinus, VNone => negb (c1 45)
-  | KEQ, VNone => negb (c1 62)
-  | KLT, VNone => negb (c1 61 || c1 62 || c1 60)
-  | KGT, VNone => negb (c1 61 || c1 62)
-  | KDiv, VNone => negb (c1 61 || c1 42)
-  | KTimes, VNone => negb (c1 42)
-  | KQue, VNone => negb (c1 63 || c1 61 || c1 47 || c1 60 || c1 62)
-  | KQueLT, VNone => negb (c1 61)
-  | KQueGT, VNone => negb (c1 61)
-  | KKw _, VNone => negb (nth_sat rest 0 is_idc) && negb (is_bs_name (kind_text (t_kind t)) && c1 34)
-  | KIdentifier, VIdent n =>
-      if nth_is n 0 92 then negb (c1 92)
-      else negb (nth_sat rest 0 is_idc) && negb (is_bs_name n && c1 34)
-  | KStringLiteral, VString _ => negb (c1 34)
-  | KCharacter, VChar _ => can_be_char last
-  | KAbstractLiteral, VAbsInt _ _ => negb (nth_sat rest 0 is_idc) && negb (c1 46) && negb (c1 35)
-  | KAbstractLiteral, VAbsReal _ => negb (nth_sat rest 0 is_idc) && negb (c1 46) && negb (c1 35)
-  | KBitString, _ => negb (c1 34)
-  | _, _ => true
+     tick vs character literal, string after string, integer followed by `.` `#` or a letter ...
+   The next character must be Latin-1 (the tokenizer looks at it through the checking `peek`). *)
+Definition ident_follow (n : list N) (rest : list char) : bool :=
+  negb (hd_sat rest is_idc) && negb (is_bs_name n && hd_is rest 34).
+Definition num_follow (rest : list char) : bool :=
+  negb (hd_sat rest is_idc) && negb (hd_is rest 46) && negb (hd_is rest 35).
+Definition follow_delim (last : option kind) (k : kind) (rest : list char) : bool :=
+  let c1 := hd_is rest in
+  match k with
+  | KColon => negb (c1 61)
+  | KTick => negb (can_be_char last) || snd_not_tick rest
+  | KMinus => negb (c1 45)
+  | KEQ => negb (c1 62)
+  | KLT => negb (c1 61 || c1 62 || c1 60)
+  | KGT => negb (c1 61 || c1 62)
+  | KDiv => negb (c1 61 || c1 42)
+  | KTimes => negb (c1 42)
+  | KQue => negb (c1 63 || c1 61 || c1 47 || c1 60 || c1 62)
+  | KQueLT => negb (c1 61)
+  | KQueGT => negb (c1 61)
+  | KKw n => ident_follow n rest
+  | _ => true
   end.
+Definition follow_kv (last : option kind) (k : kind) (v : value) (rest : list char) : bool :=
+  hd_lat_b rest &&
+  match v with
+  | VNone => follow_delim last k rest
+  | VIdent n => if hd_is n 92 then negb (hd_is rest 92) else ident_follow n rest
+  | VString _ => negb (hd_is rest 34)
+  | VChar _ => can_be_char last
+  | VAbsInt _ _ => num_follow rest
+  | VAbsReal _ => num_follow rest
+  | VBitString _ _ _ _ => negb (hd_is rest 34)
+  | VText _ => true
+  end.
+Definition follow_ok (last : option kind) (t : token) (rest : list char) : bool :=
+  follow_kv last (t_kind t) (t_val t) rest.
 
 (* comments as they may appear in a rendering *)
 Fixpoint has_star_slash (v : list char) : bool :=
@@ -246,13 +280,39 @@ Fixpoint pieces_ok (last : option kind) (ps : list piece) : bool :=
     | PLine v => line_ok v && (match r with [] => true | PBlank c :: _ => c =? 10 | _ => false end)
                  && pieces_ok last r
     | PBlock v => block_ok v && pieces_ok last r
-    | PLex t => follow_ok last t (take_text 2 r) && pieces_ok (Some (t_kind t)) r
+    | PLex t => follow_ok last t (take_text 2 r) && negb (match tok_text t with [] => true | _ => false end)
+                && pieces_ok (Some (t_kind t)) r
     end
   end.
 
+(* comments behind the last token: only a `--` comment directly behind it (blanks between) is attached
+   to a token (as its trailing comment); anything else would be lost *)
+Fixpoint after_last_lex (cur ps : list piece) : list piece :=
+  match ps with
+  | [] => cur
+  | PLex _ :: r => after_last_lex r r
+  | _ :: r => after_last_lex cur r
+  end.
+Definition is_comment_piece (p : piece) : bool :=
+  match p with PLine _ | PBlock _ => true | _ => false end.
+Fixpoint drop_blank32 (ps : list piece) : list piece :=
+  match ps with
+  | PBlank c :: r => if c =? 32 then drop_blank32 r else ps
+  | _ => ps
+  end.
+Definition has_lex (ps : list piece) : bool := existsb (fun p => match p with PLex _ => true | _ => false end) ps.
+Definition final_gap_ok (ps : list piece) : bool :=
+  let g := after_last_lex ps ps in
+  if has_lex ps then
+    match drop_blank32 g with
+    | PLine _ :: r => negb (existsb is_comment_piece r)
+    | r => negb (existsb is_comment_piece r)
+    end
+  else negb (existsb is_comment_piece g).
+
 (* the separator discipline of a trace, and of a token/separator list *)
 Definition ops_sep_ok (l : list op) : bool :=
-  match render_pieces l with Some ps => pieces_ok None ps | None => false end.
+  match render_pieces l with Some ps => pieces_ok None ps && final_gap_ok ps | None => false end.
 Definition sep_ok_from (s0 : sep) (l : list (token * sep)) : bool := ops_sep_ok (trace_of s0 l).
 Definition sep_ok (l : list (token * sep)) : bool := sep_ok_from [] l.
 
@@ -271,7 +331,7 @@ Definition basic_ident_ok (n : list N) : bool :=
 Definition ext_ident_ok (n : list N) : bool :=
   match n with
   | c :: r => (c =? 92) && negb (match r with [] => true | _ => false end) && (last r 0 =? 92)
-              && forallb (fun x => lat x && nonl x && negb (x =? 92)) (removelast r)
+              && forallb (fun x => lat x && nonl x) (removelast r)
   | [] => false
   end.
 (* a decimal integer literal without exponent: digits and underscores, first a digit *)
@@ -283,7 +343,7 @@ Fixpoint dec_value (acc : N) (l : list N) : option N :=
               else None
   end.
 Definition plain_int_ok (txt : list N) (n : N) : bool :=
-  nth_sat txt 0 is_digit && match dec_value 0 txt with Some v => v =? n | None => false end.
+  hd_sat txt is_digit && match dec_value 0 txt with Some v => v =? n | None => false end.
 
 Definition supported_kind (t : token) : bool :=
   match t_kind t, t_val t with
